@@ -13,7 +13,7 @@ import (
 
 type verifAPICall struct {
 	name  string
-	class int // 0: allowed in every state; 1: allowed in NORMAL/DEGRADED and RESIZING; 2: NORMAL/DEGRADED only
+	class int // 0: served in every state; 1: shard transfer / abort, served only while RESIZING; 2: NORMAL/DEGRADED only
 	call  func(api *API) error
 }
 
@@ -78,7 +78,7 @@ func VerifH23Gate() {
 	case 0:
 		wantRefused = false
 	case 1:
-		wantRefused = !(serving || st == ClusterStateResizing)
+		wantRefused = st != ClusterStateResizing
 	default:
 		wantRefused = !serving
 	}
